@@ -116,7 +116,43 @@ def check_one(M, v, Qd, Hd, m, d_inv, bad, normA, ref_n=None):
                 bad("m>n-differs-from-m=n", {})
 
 
+def run_option(case, seed):
+    """the Householder variant of arnoldi(): one start vector, every max_iters in 1..n+1; the decomposition must satisfy the same relations"""
+    _, opt, n, cplx = case
+    A, M, lam, V = operator("nonnormal", n, cplx, seed)
+    v, _ = start("rand", n, M, V, seed)
+    vio, ntr = [], 0
+
+    def bad(sym, detail):
+        key = f"C15|option:{opt}|{sym}"
+        if not any(x["key"] == key for x in vio):
+            vio.append({"key": key, "what": f"arnoldi(..., {opt}=True): {sym}", "detail": {**detail, "n": n, "complex": cplx}})
+
+    with warnings.catch_warnings():
+        warnings.simplefilter("ignore")
+        for m in range(1, n + 2):
+            ntr += 1
+            try:
+                Q, H, _ = arnoldi(A, v.copy(), max_iters=m, tol=1e-12, **{opt: True})
+                Qd, Hd = np.asarray(Q.to_dense()), np.asarray(H.to_dense())
+            except Exception as e:
+                bad(f"exc:{type(e).__name__}", {"msg": str(e)[:200], "max_iters": m})
+                continue
+            j = min(m, n)
+            if Qd.ndim != 2 or Qd.shape[0] != n or Qd.shape[1] < j or Hd.shape[0] < j or Hd.shape[1] < j:
+                bad("shape", {"Q": list(Qd.shape), "H": list(Hd.shape), "max_iters": m})
+                continue
+            Qj, Hj = Qd[:, :j], Hd[:j, :j]
+            if np.max(np.abs(Qj.conj().T @ Qj - np.eye(j))) > 1e-8:
+                bad("Q-not-orthonormal", {"max_iters": m})
+            elif np.max(np.abs(Qj.conj().T @ M @ Qj - Hj)) > 1e-8 * np.linalg.norm(M, 2):
+                bad("H-is-not-Q^H-A-Q", {"max_iters": m})
+    return {"states": n + 1, "transitions": ntr, "outcome": f"opt:{opt}:{len(vio)}", "violations": vio}
+
+
 def run_case(case, seed):
+    if case[0] == "OPT":
+        return run_option(case, seed)
     fam, n, cplx, vkind, tol, entry, ms = case
     vio, ntr = [], 0
     h = hashlib.sha256()
@@ -230,6 +266,9 @@ def cases(tier, seed):
                                 continue
                             out.append([fam, n, cplx, vk, tol, entry, ms])
     _DESC.update({"configurations": len(out), "runs": sum(len(c[-1]) for c in out), "sizes": small + big})
+    for n in (3, 5, 8):
+        for cplx in (False, True):
+            out.append(["OPT", "use_householder", n, cplx])
     return out
 
 
